@@ -84,6 +84,7 @@ class CiderGrids(Grids):
             level = self.level
         if prune is None:
             prune = self.prune
+        kwargs.setdefault("full_lmax", self.lmax)
         (
             atom_grids_tab,
             lmax_tab,
